@@ -109,6 +109,10 @@ class Builder:
             return self.memo[t]
         if k == "sub":
             return self.query(t[1])
+        if k == "sub1":         # like "sub", but ONE sub-query object for every occurrence of the term (s = an(...) reused)
+            if t not in self.memo:
+                self.memo[t] = self.query(t[1])
+            return self.memo[t]
         if k == "new":          # ("new", clsname, positional terms, ((field, term), ...)) constructor call
             pos = [self.arg(a) for a in t[2]]
             kw = {f: self.arg(a) for f, a in t[3]}
@@ -388,6 +392,8 @@ def up_term(t, inst):
         return f"concatenate({up_term(t[1], inst)})"
     if k == "sub":
         return up_query(t[1], inst, nested=True)
+    if k == "sub1":
+        return "(S := " + up_query(t[1], inst, nested=True) + ")"
     if k == "new":
         args = [up_term(a, inst) for a in t[2]] + [f"{f}={up_term(a, inst)}" for f, a in t[3]]
         return f"{t[1]}({', '.join(args)})"
